@@ -52,7 +52,7 @@ ASSUMPTIONS = {
         "exact f64 equality for 1.0, 0.5, 1.0/3.0 under CBMC's IEEE-754 model",
     ],
     "C16": KMER_COMMON + [
-        "assumed contract: NtHashIterator::new == folds fh_n/rh_n (Kani per k against mirrors; quick tier k in {5,7,15,31,33,63}, thorough every odd k in 5..63)",
+        "assumed contract: NtHashIterator::new == folds fh_n/rh_n (Kani per k against mirrors; quick tier k in {5,7,15}, thorough adds 9, 21, 31, 33, 63; for other k the k-independent loop body is trusted)",
         "assumed contracts u64::rotate_left/rotate_right == shift formulas - discharged for every value by Kani",
         "encode_kmer is checked at length 5 only (its all-length statement is the Verus pack lemma); decode_kmer / skalo_decode_kmer (String code) unverified",
         "the Kani rollstep harnesses on the generic SplitKmer<IntT> are complete per k only (quick: k = 5 both widths; thorough adds 7, 15, 31, 33, 63)",
